@@ -129,9 +129,18 @@ class ClassRef:
 
 
 class BoundMethod:
+    """like Python's bound methods: a new object per attribute access, equal when they bind the same
+    function to the same object"""
+
     def __init__(self, obj, fi):
         self.obj = obj
         self.fi = fi
+
+    def __eq__(self, o):
+        return isinstance(o, BoundMethod) and o.obj is self.obj and o.fi is self.fi
+
+    def __hash__(self):
+        return hash((id(self.obj), id(self.fi)))
 
 
 class SuperRef:
